@@ -349,6 +349,7 @@ let monitor (opsf : string) (obsf : string) (outf : string) =
            (* "remove deletes exactly x ... and nothing else changes": a bystander's payload is part of "nothing else" *)
            (match o with
             | (ORemove _ | ORemoveSubtree _) when ci = 41 -> report "C04" (Printf.sprintf "a removal changed the payload of a node it did not remove (clause %d) after %s" ci cmd)
+            | OInsert (_, false, _, _) when ci = 20 || ci = 21 || ci = 22 -> report "C05" (Printf.sprintf "an unchecked insert that did not panic has an effect different from the checked form's documented effect (clause %d) after %s" ci cmd)
             | _ -> ());
            if dead_arg && (ci = 10 || ci = 11 || ci = 12) then report "C05" (Printf.sprintf "insert with a removed node mishandled (clause %d)" ci)) failed
      | Some (cmd, None, _, a0) ->
